@@ -37,6 +37,16 @@
 (*                    select/all/indexer computed from the node's own      *)
 (*                    input and the children's logged outcomes             *)
 (*   nonull      C10  no null item in any result                           *)
+(*   eqval       C05  = / != of two operand outcomes whose items are all   *)
+(*                    logged System values is what FPCompare permits       *)
+(*   cmpval      C05  < <= > >= of two logged singleton values likewise    *)
+(*   arith       C08  + - * / div mod of two logged Integer/Decimal        *)
+(*                    singletons, and unary minus, satisfy FPArith's       *)
+(*                    relations (value, emptiness on overflow and zero     *)
+(*                    divisors, never an error)                            *)
+(*   strfn       C14  length upper lower startsWith endsWith contains      *)
+(*                    indexOf substring toChars replace on a logged String *)
+(*                    input with logged arguments is what FPStrings says   *)
 (***************************************************************************)
 EXTENDS Integers, Sequences, FiniteSets, FPLogic, Json, TLC, Params
 
@@ -58,8 +68,12 @@ Propagating == {"Abs", "Ceiling", "Children", "Contains", "ConvertsToBoolean", "
 OperandNodes == {"Is", "As", "Negation", "Equality", "Comparison", "Arithmetic"}
 StrictNodes == OperandNodes \cup {"Boolean", "Sequence", "Index", "Concat"}   \* a failing child fails the node
 
-Frame(e) == [k |-> e.k, p |-> e.p, in |-> e.in, inh |-> e.inh, ic |-> e.ic, kids |-> <<>>]
-Kid(f, e) == [k |-> f.k, in |-> f.in, ok |-> e.ok, out |-> e.out, cls |-> e.cls, hi |-> e.hi, iv |-> e.iv]
+Cmp == INSTANCE FPCompare
+Ar  == INSTANCE FPArith
+St  == INSTANCE FPStrings
+
+Frame(e) == [k |-> e.k, p |-> e.p, in |-> e.in, inh |-> e.inh, ic |-> e.ic, inv |-> e.inv, kids |-> <<>>]
+Kid(f, e) == [k |-> f.k, in |-> f.in, ok |-> e.ok, out |-> e.out, cls |-> e.cls, hi |-> e.hi, iv |-> e.iv, ov |-> e.outv]
 
 RECURSIVE SubseqFrom(_, _, _, _)
 SubseqFrom(a, i, b, j) ==           \* a[i..] embeds in b[j..] in order
@@ -115,6 +129,81 @@ FnLaws(f, e) ==
        [] fn \in {"Distinct", "Intersect"} /\ e.ok -> bad(Len(e.out) <= n)
        [] OTHER -> {}
 
+(* ---- value laws: the node's operands are the logged System values of its children's outcomes ---- *)
+Valued(vs, items) == Len(vs) = Len(items) /\ \A i \in 1..Len(vs) : vs[i].t # "none"
+OneVal(kid, types) == kid.ok /\ Len(kid.out) = 1 /\ Valued(kid.ov, kid.out) /\ kid.ov[1].t \in types
+NumT == {"i", "d"}
+(* quantities of different units are left to the dedicated check (calendar keywords against their plurals are open) *)
+UnitsAgree(x, y) == ~(x.t = "q" /\ y.t = "q") \/ x.unit = y.unit
+PairsAgree(a, b) == Len(a) # Len(b) \/ \A i \in 1..Len(a) : UnitsAgree(a[i], b[i])
+
+EqLaw(f, e) ==
+  LET kl == f.kids[1]  kr == f.kids[2] IN
+  IF Len(f.kids) = 2 /\ AllKidsOk(f) /\ Valued(kl.ov, kl.out) /\ Valued(kr.ov, kr.out) /\ PairsAgree(kl.ov, kr.ov)
+  THEN LET eq == Cmp!CollEqSet(kl.ov, kr.ov)
+           want == IF f.p = "=" THEN eq ELSE {Cmp!Neg3(v) : v \in eq}
+       IN IF e.ok /\ e.cls \in want THEN {} ELSE {<<"eqval", "C05">>}
+  ELSE {}
+
+CmpLaw(f, e) ==
+  LET kl == f.kids[1]  kr == f.kids[2]  all == {"b", "i", "d", "s", "date", "dt", "time", "q"} IN
+  IF Len(f.kids) = 2 /\ OneVal(kl, all) /\ OneVal(kr, all) /\ UnitsAgree(kl.ov[1], kr.ov[1]) /\ f.p \in {"<", "<=", ">", ">="}
+  THEN LET want == Cmp!OpSet(f.p, kl.ov[1], kr.ov[1]) IN
+       IF (e.ok /\ e.cls \in want) \/ ("X" \in want /\ (~e.ok \/ e.cls = "E")) THEN {} ELSE {<<"cmpval", "C05">>}
+  ELSE {}
+
+ArithOp(p) == CASE p = "EvaluateAdd" -> (IF Mutant = "addIsSub" THEN "-" ELSE "+") [] p = "EvaluateSub" -> "-" [] p = "EvaluateMul" -> "*" [] p = "EvaluateDiv" -> "/"
+                [] p = "EvaluateFloorDiv" -> "div" [] p = "EvaluateMod" -> "mod" [] OTHER -> ""
+NumOutcomeOk(e, accepts, mayBeEmpty) ==
+  IF ~e.ok THEN FALSE
+  ELSE IF e.out = <<>> THEN mayBeEmpty
+  ELSE IF Len(e.out) = 1 /\ Valued(e.outv, e.out)
+       THEN (IF e.outv[1].t \in NumT THEN accepts[Ar!NumOfItem(e.outv[1])] ELSE FALSE)
+       ELSE Len(e.out) = 1      \* a number the trace does not spell (more than 60 digits): not judged here
+ArithLaw(f, e) ==
+  LET kl == f.kids[1]  kr == f.kids[2]  op == ArithOp(f.p) IN
+  IF Len(f.kids) = 2 /\ op # "" /\ OneVal(kl, NumT) /\ OneVal(kr, NumT)
+  THEN LET a == Ar!NumOfItem(kl.ov[1])  b == Ar!NumOfItem(kr.ov[1]) IN
+       IF NumOutcomeOk(e, [v \in {Ar!NumOfItem(e.outv[1])} |-> Ar!AcceptsValBin(op, a, b, v)], Ar!MayBeEmptyBin(op, a, b))
+       THEN {} ELSE {<<"arith", "C08">>}
+  ELSE {}
+NegLaw(f, e) ==
+  IF Len(f.kids) = 1 /\ OneVal(f.kids[1], NumT)
+  THEN LET a == Ar!NumOfItem(f.kids[1].ov[1]) IN
+       IF NumOutcomeOk(e, [v \in {Ar!NumOfItem(e.outv[1])} |-> Ar!AcceptsValUn("neg", a, 0, v)], Ar!MayBeEmptyUn("neg", a, 0))
+       THEN {} ELSE {<<"arith", "C08">>}
+  ELSE {}
+
+StrOut(e) == e.ok /\ Len(e.out) = 1 /\ Valued(e.outv, e.out) /\ e.outv[1].t = "s"
+StrsOut(e) == e.ok /\ Valued(e.outv, e.out) /\ \A j \in 1..Len(e.outv) : e.outv[j].t = "s"
+Cps(vs) == [j \in 1..Len(vs) |-> vs[j].cp]
+StrLaw(f, e) ==
+  LET fn == f.p
+      nk == Len(f.kids)
+      bad(c) == IF c THEN {} ELSE {<<"strfn", "C14">>}
+      boolIs(b) == e.ok /\ e.cls = (IF b THEN "T" ELSE "F")
+      intIs(n) == e.ok /\ e.hi /\ e.iv = n
+  IN IF ~(Len(f.in) = 1 /\ Valued(f.inv, f.in) /\ f.inv[1].t = "s") THEN {}
+     ELSE LET s == f.inv[1].cp
+              sArg(i) == OneVal(f.kids[i], {"s"})
+              iArg(i) == f.kids[i].ok /\ f.kids[i].hi
+          IN CASE fn = "Length" /\ nk = 0 -> bad(intIs(St!StrLength(s)))
+               [] fn = "Upper" /\ nk = 0 /\ (\A j \in 1..Len(s) : St!CaseKnown(s[j])) -> bad(StrOut(e) /\ e.outv[1].cp = St!StrUpper(s))
+               [] fn = "Lower" /\ nk = 0 /\ (\A j \in 1..Len(s) : St!CaseKnown(s[j])) -> bad(StrOut(e) /\ e.outv[1].cp = St!StrLower(s))
+               [] fn = "StartsWith" /\ nk = 1 /\ sArg(1) -> bad(boolIs(St!StrStartsWith(s, f.kids[1].ov[1].cp)))
+               [] fn = "EndsWith" /\ nk = 1 /\ sArg(1) -> bad(boolIs(St!StrEndsWith(s, f.kids[1].ov[1].cp)))
+               [] fn = "Contains" /\ nk = 1 /\ sArg(1) -> bad(boolIs(St!StrContains(s, f.kids[1].ov[1].cp)))
+               [] fn = "IndexOf" /\ nk = 1 /\ sArg(1) -> bad(intIs(St!StrIndexOf(s, f.kids[1].ov[1].cp)))
+               [] fn = "Substring" /\ nk = 1 /\ iArg(1) -> bad(StrsOut(e) /\ Cps(e.outv) = St!StrSubstring1(s, f.kids[1].iv))
+               [] fn = "Substring" /\ nk = 2 /\ iArg(1) /\ iArg(2) ->
+                    bad(StrsOut(e) /\ Cps(e.outv) \in {St!StrSubstring2(s, f.kids[1].iv, f.kids[2].iv),
+                                                     St!StrSubstring2Alt(s, f.kids[1].iv, f.kids[2].iv)})
+               [] fn = "ToChars" /\ nk = 0 ->
+                    bad(e.ok /\ Len(e.out) = Len(s) /\ (Len(s) <= 8 => StrsOut(e) /\ Cps(e.outv) = St!StrToChars(s)))
+               [] fn = "Replace" /\ nk = 2 /\ sArg(1) /\ sArg(2) ->
+                    bad(StrOut(e) /\ e.outv[1].cp = St!StrReplace(s, f.kids[1].ov[1].cp, f.kids[2].ov[1].cp))
+               [] OTHER -> {}
+
 CriteriaFns == {"Where", "All", "Exists", "Select"}
 EndLaws(f, e) ==
   LET n == Len(f.in)
@@ -151,7 +240,11 @@ EndLaws(f, e) ==
   \cup (IF f.k = "Index" /\ nk = 1 /\ f.kids[1].ok /\ f.kids[1].hi
            /\ ~(e.ok /\ e.out = (IF f.kids[1].iv >= 0 /\ f.kids[1].iv < n THEN <<f.in[f.kids[1].iv + 1]>> ELSE <<>>))
         THEN {<<"subset", "C10">>} ELSE {})
-  \cup (IF f.k = "Function" THEN FnLaws(f, e) ELSE {})
+  \cup (IF f.k = "Function" THEN FnLaws(f, e) \cup StrLaw(f, e) ELSE {})
+  \cup (IF f.k = "Equality" THEN EqLaw(f, e) ELSE {})
+  \cup (IF f.k = "Comparison" THEN CmpLaw(f, e) ELSE {})
+  \cup (IF f.k = "Arithmetic" THEN ArithLaw(f, e) ELSE {})
+  \cup (IF f.k = "Negation" THEN NegLaw(f, e) ELSE {})
 
 Report(e, laws) ==
   laws = {} \/ \A w \in laws : PrintT(ToJson([line |-> l, ev |-> e.ev, k |-> e.k, d |-> e.d, law |-> w[1], prop |-> w[2]]))
